@@ -44,7 +44,7 @@ from gin import config as gc
 
 BOUNDS = ('19 callable kinds + 19 class shapes x 3 registration APIs x {returned, original '
           'object, full selector, partial selector, reference, evaluated reference} x 3 scopes '
-          '(none, 1 level, 2 levels), one bound parameter each; 14 rejection reasons x 3 APIs x '
+          '(none, 1 level, 2 levels), one bound parameter each; 13 rejection reasons x 3 APIs x '
           '10 targets; interactive mode: 3 APIs x 4 targets x 3 ways of leaving the block; '
           'thorough repeats the product with 3 further bound values')
 EXHAUSTIVE = {'quick': True, 'thorough': True}
@@ -96,10 +96,6 @@ class _Owner:
   @classmethod
   def cmeth(cls, a=1, b=2):
     return ['cmeth', cls.__name__, a, b]
-
-  @staticmethod
-  def smeth(a=1, b=2):
-    return ['smeth', a, b]
 
 
 def _fn_target(kind):
@@ -211,7 +207,8 @@ def _cls_target(shape, idx=0):
       'slots': ('object', '__slots__ = ("a", "b")\n  ' + ab),
       'abc_concrete': ('_AbstractBase', ab + '  def go(self):\n    return 1\n'),
       'abc_abstract': ('_AbstractBase', ab),
-      'methods': ('object', ab + '  @gin.register("meth_%d")\n  def meth(self, k=1):' % idx + '\n    return ["meth", self.a, k]\n'),
+      'methods': ('object', ab + '  @gin.register("meth_%d")\n' % idx +
+                  '  def meth(self, k=1):\n    return ["meth", self.a, k]\n'),
       'generic': ('typing.Generic[T]', ab),
       'exception': ('Exception', 'def __init__(self, a=1, b=2):\n    super().__init__(a, b)\n'
                     '    self.a = a\n    self.b = b\n'),
@@ -289,11 +286,11 @@ def _snapshot(obj):
   if inspect.isclass(obj):
     return ['class', type(obj), obj.__bases__, obj.__mro__[1:],
             {k: id(v) for k, v in vars(obj).items()}]
-  parts = [type(obj)]
+  parts = [type(obj), id(getattr(obj, '__self__', None))]
   fn = getattr(obj, '__func__', obj)  # bound methods: look at the function
   for a in ('__code__', '__defaults__', '__kwdefaults__', '__name__', '__qualname__', '__doc__',
-            '__module__', '__wrapped__', '__self__'):
-    parts.append((a, id(getattr(fn, a, None)) if a in ('__code__', '__wrapped__', '__self__')
+            '__module__', '__wrapped__'):
+    parts.append((a, id(getattr(fn, a, None)) if a in ('__code__', '__wrapped__')
                   else getattr(fn, a, None)))
   parts.append(dict(getattr(fn, '__dict__', {})))
   if isinstance(obj, _Callable):
@@ -316,9 +313,10 @@ def _register(api, obj, name, module=MOD, **lists):
 
 
 # ---- cases -----------------------------------------------------------------------------
-WHYS = ['name_space', 'name_digit', 'name_dots', 'name_empty', 'name_slash', 'name_dash',
-        'module_space', 'module_empty', 'module_dots', 'duplicate', 'allow_unknown',
-        'deny_unknown', 'both_lists', 'module_newline', 'name_newline']
+# Only unarguably invalid names (no empty strings, which an API could read as "not given").
+WHYS = ['name_space', 'name_digit', 'name_dots', 'name_slash', 'name_dash', 'module_space',
+        'module_dots', 'duplicate', 'allow_unknown', 'deny_unknown', 'both_lists',
+        'module_newline', 'name_newline']
 REJECT_TARGETS = ['def_defaults', 'builtin_sum', 'callable_obj', 'callable_eq', 'bound_method',
                   'init', 'new', 'namedtuple', 'meta', 'methods']
 VALUES = [41, 'forty-two', -3, 0]
@@ -350,8 +348,9 @@ def _fail(fails, case, clause, expected, observed, extra=''):
   keys = [k for k in ('target', 'api', 'path', 'why', 'leave') if k in case]
   sig = clause + ' ' + ' '.join('%s=%s' % (k, case[k]) for k in keys)
   if case['mode'] != 'use':  # the kind of object matters there, not the exact shape
-    kind = 'fn' if case['target'] in FN_KINDS else 'cls+methods' if case['target'] == 'methods' else 'cls'
-    sig = sig.replace('target=' + case['target'], 'target=' + kind)
+    t = case['target']
+    sig = sig.replace('target=' + t, 'target=' + (
+        'fn' if t in FN_KINDS else 'cls+methods' if t == 'methods' else 'cls'))
   if case.get('scope'):
     sig += ' scoped'
   fails.append({'clause': clause, 'expected': expected, 'observed': observed,
@@ -359,8 +358,8 @@ def _fail(fails, case, clause, expected, observed, extra=''):
 
 
 def _version(case, orig, returned, name):
-  """(callable, its args): the registry's version reached by case['path'], or for 'ref_call'
-  a holder whose call evaluates the reference."""
+  """The registry's version reached by case['path']; for 'ref_call' a holder whose call
+  evaluates the reference (and so returns the version's result)."""
   scope, path = case['scope'], case['path']
   prefix = scope + '/' if scope else ''
   if path == 'returned':
@@ -475,8 +474,8 @@ def _check_reject(case, fails):
   neighbour = _register('external', lambda q=0: ['n', q], 'neighbour')
   _register(api, other, 'taken')
   name, module, lists = 'fresh', MOD, {}
-  bad = {'space': 'has space', 'digit': '9lives', 'dots': 'a..b', 'empty': '', 'slash': 'x/y',
-         'dash': 'a-b', 'newline': 'trailing\n'}
+  bad = {'space': 'has space', 'digit': '9lives', 'dots': 'a..b', 'slash': 'x/y', 'dash': 'a-b',
+         'newline': 'trailing\n'}
   if why.startswith('name_'):
     name = bad[why[5:]]
   elif why.startswith('module_'):
@@ -487,7 +486,7 @@ def _check_reject(case, fails):
     lists = {'allowlist': ['a'], 'denylist': ['b']}
   else:
     lists = {('allowlist' if why == 'allow_unknown' else 'denylist'): ['no_such_parameter']}
-  if why == 'both_lists' and target in ('builtin_sum',):
+  if why == 'both_lists' and target == 'builtin_sum':
     lists = {'allowlist': ['start'], 'denylist': ['iterable']}
   before, reg_before = _snapshot(orig), _registry_snapshot()
   try:
